@@ -4,13 +4,13 @@ go 1.23
 
 require (
 	github.com/google/go-configfs-tsm v0.3.2
+	github.com/google/go-eventlog v0.0.2-0.20241213203620-f921bdc3aeb0
 	github.com/google/go-tdx-guest v0.0.0
 	golang.org/x/crypto v0.17.0
 	google.golang.org/protobuf v1.34.2
 )
 
 require (
-	github.com/google/go-eventlog v0.0.2-0.20241213203620-f921bdc3aeb0 // indirect
 	github.com/google/go-tpm v0.9.0 // indirect
 	github.com/google/logger v1.1.1 // indirect
 	go.uber.org/multierr v1.11.0 // indirect
